@@ -170,11 +170,6 @@ func failf(sig, format string, a ...any) *failure {
 	return &failure{"c07:" + sig, fmt.Sprintf(format, a...)}
 }
 
-// ejectObs is what one real ejection did.
-type ejectObs struct {
-	ejected uint // mask over ts
-}
-
 // ejectAndCheck runs the real sendTracesEarly(bytes) on worker w of f (handler mode) and evaluates the whole oracle of
 // one ejection. ts = the model of the traces buffered on worker w (in any order); others = model traces on other workers.
 // allowMemo: estimates memoised by an earlier ejection are admissible alternatives (history part).
@@ -283,7 +278,10 @@ func ejectAndCheck(f *fx.Fixture, w int, ts []*mtrace, others []*mtrace, arrived
 		stats("order explained only by an estimate memoised at an earlier ejection")
 	}
 	if len(valid) > 1 {
+		// which of the tied traces goes first is the runtime's choice (map order, unstable sort): every choice is checked
+		// in full below, but only the tie itself is counted, so that the evidence counters are identical on every run
 		stats("tie in estimated impact (either order accepted)")
+		stats = func(string) {}
 	}
 	// 2. every ejected trace is decided per the sampler, queued for forwarding iff kept
 	queued := map[string]fx.OutView{}
@@ -784,7 +782,13 @@ func (s *hscenario) exec(r *ev.Run, h []event, note func(string)) (string, strin
 			case 2:
 				bytes = 1 << 40
 			}
-			em, fl := ejectAndCheck(f, 0, ts, nil, arrived, bytes, true, func(k string) { flags[k] = true; note(k) })
+			em, fl := ejectAndCheck(f, 0, ts, nil, arrived, bytes, true, func(k string) {
+				flags[k] = true
+				note(k)
+				if strings.Contains(k, "memoised") {
+					memoExample(h[:step+1])
+				}
+			})
 			if fl != nil {
 				fl.what = fmt.Sprintf("step %d: ", step+1) + fl.what
 				return fail(fl)
@@ -895,6 +899,23 @@ func (s *hscenario) enabled(h []event) []event {
 		out = append(out, event{Op: "send"})
 	}
 	return out
+}
+
+// memoExample keeps the shortest (then lexicographically first) history in which an ejection order is only explained
+// by an estimate memoised at an earlier ejection — reported in the evidence as an observation, not a violation.
+var (
+	memoMu  sync.Mutex
+	memoMin string
+	memoLen int
+)
+
+func memoExample(h []event) {
+	s := hist(h)
+	memoMu.Lock()
+	if memoMin == "" || len(h) < memoLen || (len(h) == memoLen && s < memoMin) {
+		memoMin, memoLen = s, len(h)
+	}
+	memoMu.Unlock()
 }
 
 // ---------------------------------------------------------------- (A) overage split through the real checkAlloc
@@ -1135,6 +1156,9 @@ func main() {
 		r.Add("transitions", int64(nsplit))
 		r.Add("checkalloc_runs", int64(nsplit))
 		fmt.Printf("  %-34s runs %d\n", "overage-split (real checkAlloc)", nsplit)
+	}
+	if memoMin != "" {
+		r.Set("stale_estimate_example", memoMin)
 	}
 	r.Set("oracle_notes", notes)
 	r.Set("traces_validated_against_impl", nsplit)
